@@ -29,12 +29,13 @@ type c11Ev struct {
 }
 
 type c11St struct {
-	env   map[types.Object]*c11V
-	heap  map[int]*c11Obj
-	as    []c11As
-	ev    []c11Ev
-	stack []c11Saved // environments of the callers of the function being executed (innermost last)
-	notes []string   // imprecision met on this path (unsupported statement, ...): verdicts on such a path are Unknown
+	env    map[types.Object]*c11V
+	heap   map[int]*c11Obj
+	as     []c11As
+	ev     []c11Ev
+	defers map[string][]*ast.CallExpr // calls deferred by the frames that are active (by call path)
+	stack  []c11Saved                 // environments of the callers of the function being executed (innermost last)
+	notes  []string                   // imprecision met on this path (unsupported statement, ...): verdicts on such a path are Unknown
 }
 
 // c11Saved is the environment of a suspended caller frame.
@@ -61,6 +62,12 @@ func (s *c11St) clone() *c11St {
 			e[k] = v
 		}
 		n.stack = append(n.stack, c11Saved{path: sv.path, env: e})
+	}
+	if len(s.defers) > 0 {
+		n.defers = map[string][]*ast.CallExpr{}
+		for k, v := range s.defers {
+			n.defers[k] = append([]*ast.CallExpr(nil), v...)
+		}
 	}
 	n.as = append([]c11As(nil), s.as...)
 	n.ev = append([]c11Ev(nil), s.ev...)
@@ -145,7 +152,7 @@ func (s *c11St) truth(v *c11V) c11Tri { return s.truthAt(v, -1, nil) }
 func c11Distinct(a, b *c11V) bool {
 	nonNil := func(v *c11V) bool {
 		switch v.k {
-		case "addr", "struct", "funclit", "func", "lit":
+		case "addr", "struct", "funclit", "func", "lit", "ref":
 			return true
 		case "call":
 			// constructors of the standard library that never return nil
